@@ -69,6 +69,20 @@ Goal forall (cfg : py_config) (generics : list str) (t : rtype),
       (forall u, In u (c12_py_tnames x) -> In u c12_py_fixed -> In u (c12_py_imported s')).
 Proof. exact Props.C12.C12_python_format_type. Qed.
 Print Assumptions Props.C12.C12_python_format_type.
+Goal forall (uc : unicode) (cfg : py_config) (pd : parsed) (uses defs : list str),
+    c12_py_observe uc cfg pd = Ok (uses, defs) -> c12_py_dom cfg (items_of pd) = true ->
+    c12_py_known cfg pd = None ->
+    c12_good uses defs = true.
+Proof. exact Props.C12.C12_python. Qed.
+Print Assumptions Props.C12.C12_python.
+Goal c12_py_known Proofs.C12.c12_py_cfg1 Proofs.C12.c12_py_full_pd = None /\
+  c12_py_dom Proofs.C12.c12_py_cfg1 (items_of Proofs.C12.c12_py_full_pd) = true /\
+  exists uses defs, c12_py_observe uc_exec Proofs.C12.c12_py_cfg1 Proofs.C12.c12_py_full_pd = Ok (uses, defs) /\
+                    In (lit "T") uses /\ In (lit "TypeVar") uses /\ In (lit "parse_rfc3339") uses /\
+                    In (lit "deserialize_binary_data") uses /\ In (lit "datetime") uses /\
+                    c12_good uses defs = true.
+Proof. exact Props.C12.C12_python_nonvacuous. Qed.
+Print Assumptions Props.C12.C12_python_nonvacuous.
 Goal forall (uc : unicode) (cfg : py_config) (pd : parsed) (ds : list py_decl) (st : py_state),
     py_decls uc cfg pd = Ok (ds, st) -> c12_py_dom cfg (items_of pd) = true ->
     forall u, In u (flat_map (c12_py_decl_uses (c12_py_tv_vocab (items_of pd))) ds) ->
